@@ -266,7 +266,7 @@ impl Prop for C08 {
             return Outcome::discard(format!("generator_bug:{}", e));
         }
         let src = render_canonical(&c.prog);
-        let m = model::run(&c.prog, &c.stdin, Scoping::Dynamic, Limits::default());
+        let m = model::run(&c.prog, &c.stdin, Scoping::Dynamic, Limits { max_str: 300_000, max_out: 2_000_000, ..Limits::default() });
         if !m.judged() {
             return Outcome::discard("budget");
         }
